@@ -28,6 +28,8 @@ def gen_cases(tier, seed):
         cases.append({"part": "large", "shard": i, "seed": seed, "n": 24 if q else 12, "tier": tier})
     for i in range(n if q else 2 * n):
         cases.append({"part": "pipeline", "seed": seed * 613 + i, "n": 6 if q else 20})
+    for i in range(4 if q else 32):
+        cases.append({"part": "lindup", "seed": seed * 617 + i, "n": 250 if q else 1500})
     return cases
 
 
@@ -347,7 +349,7 @@ def run_pipeline(case):
     ta.hillclimb_allocate_live_ranges = wrap("hillclimb_allocate_live_ranges", "HillClimb")
     try:
         for t in range(case["n"]):
-            fam = ["exact-chain", "exact-dag", "stripe-stress", "alias-stress", "buffer-stress", "cpu-mix"][int(rng.integers(0, 6))]
+            fam = ["exact-chain", "exact-dag", "stripe-stress", "alias-stress", "buffer-stress", "cpu-mix", "shared-weights", "lut-stress"][int(rng.integers(0, 8))]
             net = netgen.make(fam, case["seed"] * 100 + t)
             cfg = cfggen.rand_cfg(rng)
             cfg["allocator"] = cfggen.ALLOCS[t % 3]
@@ -371,8 +373,94 @@ def run_pipeline(case):
     return {"violations": list(viol.values()), "counters": counters, "keys": ["pipe:%d" % case["seed"]], "sample": sample}
 
 
+def run_linear_dups(case):
+    """LinearAlloc with duplicate constants (the allocator of permanent storage): tensors with an equal weight compression configuration and equivalent
+    lookup tables are declared equivalent and must share the address of the first copy; everything else gets its own slot; the total is the highest end"""
+    import ethosu.vela.tensor_allocation as ta
+    from ethosu.vela.data_type import DataType
+    from ethosu.vela.live_range import LiveRangeGraph
+    from ethosu.vela.tensor import MemArea, MemType, Tensor, TensorAddressMap, TensorPurpose
+    from ethosu.vela.weight_compressor import NpuWeightTensor, ScaleCompressionConfig, WeightCompressionConfig
+
+    rng = np.random.default_rng(np.random.SeedSequence([5150, case["seed"]]))
+    viol = {}
+    counters = {"allocator_calls": 0, "sets_with_3_live": 0, "linear_duplicate_sets": 0, "linear_duplicates_placed": 0, "linear_duplicates_followed_by_new_tensor": 0}
+    sample = None
+    for si in range(case["n"]):
+        TensorAddressMap.clear_address_map()
+        gran = int(rng.choice([16, 16, 32, 64, 256]))
+        n = int(rng.integers(3, 14))
+        g = LiveRangeGraph()
+        items = []  # (name, tensor, size, original index or None)
+        for i in range(n):
+            dup_of = None
+            cands = [j for j, it in enumerate(items) if it[3] is None]
+            if cands and rng.random() < 0.35:
+                dup_of = int(rng.choice(cands))
+            if dup_of is not None:
+                size = items[dup_of][2]
+                lut = items[dup_of][1].purpose == TensorPurpose.LUT
+            else:
+                size = int(rng.choice([1, 16, 100, 256, 1000, 1024, 2048, 4100]))
+                lut = rng.random() < 0.3
+            if lut:
+                t = Tensor([1, 1, 1, size], DataType.uint8, "lut%d" % i)
+                t.purpose = TensorPurpose.LUT
+                if dup_of is not None:
+                    t.equivalence_id = items[dup_of][1].equivalence_id
+            else:
+                t = NpuWeightTensor("w%d" % i)
+                t.set_all_shapes([1, 1, 1, size])
+                t.purpose = TensorPurpose.Weights
+                key = "w%d" % (dup_of if dup_of is not None else i)
+                t.weight_compression_config = WeightCompressionConfig("ConvolutionMxN", 16, 1234, (1, 1), key, 8, False)
+                t.scale_compression_config = ScaleCompressionConfig(key, 0.5, 0.25)
+            t.mem_area, t.mem_type = MemArea.OffChipFlash, MemType.Permanent_NPU
+            lr = g.get_or_create_range(t)
+            lr.mark_usage(0, 10)
+            items.append((t.name, t, size, dup_of))
+        wit = {"granule": gran, "tensors": [(nm, sz, d) for nm, _, sz, d in items]}
+        try:
+            total = int(ta.linear_allocate_live_ranges(g, gran))
+        except Exception as e:
+            mech = "LinearAlloc:duplicates:exception:" + type(e).__name__
+            viol.setdefault(mech, {"mech": mech, "msg": str(e)[:200], "witness": wit})
+            continue
+        counters["allocator_calls"] += 1
+        counters["linear_duplicate_sets"] += 1 if any(it[3] is not None for it in items) else 0
+        counters["linear_duplicates_placed"] += sum(1 for it in items if it[3] is not None)
+        counters["linear_duplicates_followed_by_new_tensor"] += sum(1 for k, it in enumerate(items) if it[3] is not None and any(x[3] is None for x in items[k + 1:]))
+        wit["addresses"] = [int(t.address) for _, t, _, _ in items]
+        wit["total"] = total
+
+        def v(clause, msg):
+            mech = "LinearAlloc:duplicates:" + clause
+            viol.setdefault(mech, {"mech": mech, "msg": msg, "witness": wit})
+
+        uniq = [(nm, int(t.address), sz) for nm, t, sz, d in items if d is None]
+        for nm, t, sz, d in items:
+            if t.address % gran:
+                v("alignment", "%s at %d is not a multiple of the granularity %d" % (nm, t.address, gran))
+            if d is not None and t.address != items[d][1].address:
+                v("equivalent-tensors-at-different-addresses", "%s (duplicate of %s) is at %d, the original at %d" % (nm, items[d][0], t.address, items[d][1].address))
+        for a in range(len(uniq)):
+            for b in range(a + 1, len(uniq)):
+                if max(uniq[a][1], uniq[b][1]) < min(uniq[a][1] + uniq[a][2], uniq[b][1] + uniq[b][2]):
+                    v("overlap", "%s [%d,%d) and %s [%d,%d) overlap" % (uniq[a][0], uniq[a][1], uniq[a][1] + uniq[a][2], uniq[b][0], uniq[b][1], uniq[b][1] + uniq[b][2]))
+        max_end = max(a + sz for _, a, sz in uniq)
+        if total < max_end:
+            v("total-under-reported", "reported total %d < highest end address %d" % (total, max_end))
+        elif total >= max_end + gran:
+            v("total-over-reported", "reported total %d >= highest end address %d + granule %d" % (total, max_end, gran))
+        if len(uniq) >= 3:
+            counters["sets_with_3_live"] += 1
+        if sample is None and any(it[3] is not None for it in items):
+            sample = {"linear_duplicates": wit}
+    return {"violations": list(viol.values()), "counters": counters, "keys": ["lindup:%d" % case["seed"]], "sample": sample}
+
+
 def run_case(case):
-    return {"small": run_small, "large": run_large, "pipeline": run_pipeline}[case["part"]](case)
+    return {"small": run_small, "large": run_large, "pipeline": run_pipeline, "lindup": run_linear_dups}[case["part"]](case)
 
 
 def summarise(agg, tier):
@@ -380,11 +468,12 @@ def summarise(agg, tier):
     c = agg.counters
     return {
         "thresholds": {"allocator_calls": 60000 if q else 700000, "sets_with_3_live": 5000 if q else 100000, "large_sets": 300 if q else 400,
-                       "pipeline_allocator_calls": 100 if q else 2000, "hc_iterations_observed": 1000 if q else 100000},
+                       "pipeline_allocator_calls": 100 if q else 2000, "hc_iterations_observed": 1000 if q else 100000,
+                       "linear_duplicates_followed_by_new_tensor": 500 if q else 20000},
         "distinct_nontrivial": c.get("sets_with_3_live", 0),
         "rule": "live-range sets: all ordered pairs over (10 intervals x 5 sizes x 2 alignments), ordered triples over a reduced lattice (stratified in quick, "
                 "exhaustive/4 in thorough), random 4-5 range sets over 5 time steps / alignments 16..128, random 20-300 (quick: 20-100) range sets in four lifetime styles x memory "
-                "limits below/at/above the peak x iteration limits {0,1,50,2000}; each set goes through Greedy, LinearAlloc and HillClimb. non-trivial = at least 3 "
+                "limits below/at/above the peak x iteration limits {0,1,50,2000}; each set goes through Greedy, LinearAlloc and HillClimb; LinearAlloc additionally with duplicate constants (equal weight compression configs, equivalent lookup tables) at random positions, which must share the first copy's address. non-trivial = at least 3 "
                 "ranges live at one time step (counted)",
         "assumptions": ["LinearAlloc is judged with the single granularity it is called with; Greedy/HillClimb with per-range alignments",
                         "reported total is accepted in [max_end, max_end + granule) for Greedy/LinearAlloc (their own rounding), exactly max_end for HillClimb",
